@@ -93,11 +93,14 @@ namespace parmcb {
                 std::map<Edge, std::set<Edge>> hidden_edges_per_edge;
                 std::vector<Edge> signed_edges_as_vector;
                 std::set<Edge> tmp_signed_edges = signed_edges;
-                while (!tmp_signed_edges.empty()) {
-                    auto bit = tmp_signed_edges.begin();
-                    hidden_edges_per_edge.insert(std::make_pair(*bit, tmp_signed_edges));
-                    signed_edges_as_vector.push_back(*bit);
-                    tmp_signed_edges.erase(bit);
+                signed_edges_as_vector.assign(signed_edges.begin(), signed_edges.end());
+                std::sort(signed_edges_as_vector.begin(), signed_edges_as_vector.end(),
+                        [&forest_index](const Edge &a, const Edge &b) {
+                            return forest_index(a) < forest_index(b);
+                        });
+                for (const Edge &se : signed_edges_as_vector) {
+                    hidden_edges_per_edge.insert(std::make_pair(se, tmp_signed_edges));
+                    tmp_signed_edges.erase(se);
                 }
 
                 std::vector<Edge> local_signed_edges_as_vector;
